@@ -96,6 +96,10 @@ var hbehs = []hbeh{
 	{"nack-err+1", "nack", 1, "err"},
 	{"nack-panic", "nack", -1, "panic-err"},
 	{"acknack-ok1", "acknack", 1, "ok"},
+	// a large result: more messages than any plausible internal batch size (a Publish path that splits its argument must
+	// still fail the message when any part is rejected)
+	{"ret-300", "", 300, "ok"},
+	{"err+300", "", 300, "err"},
 }
 
 // hbehsNoOut: behaviours expressible by a NoPublishHandlerFunc (it can only return an error).
